@@ -52,6 +52,7 @@ var pureExternPrefixes = []string{
 	"(google.golang.org/protobuf/reflect/protoreflect.", "cmp.Compare", "bytes.NewReader", "bytes.NewBuffer",
 	"(encoding/binary.bigEndian).String", "encoding/binary.Size",
 	"(github.com/prometheus/client_golang/prometheus.", "(*github.com/prometheus/client_golang/prometheus.",
+	"(*github.com/google/btree.BTreeG", "github.com/google/btree.NewG",
 	"regexp.MatchString", "regexp.MustCompile", "(*regexp.Regexp).Match", "net/url.Parse", "net.ParseIP", "net.SplitHostPort",
 	"slices.BinarySearch", "slices.IsSorted", "slices.Compare", "maps.Keys", "maps.Values", "slices.Collect", "slices.Sorted",
 }
